@@ -11,7 +11,7 @@
    Spec.v over a trace; Corr.v evaluates the very same checks on the traces
    recorded from the Go implementation. *)
 From Coq Require Import List ZArith NArith Bool String.
-From VF Require Import Client.Model Client.Spec Client.Proofs.
+From VF Require Import Client.Model Client.Spec Client.Proofs Client.ProofsObs.
 Import ListNotations.
 Open Scope Z_scope.
 
@@ -61,6 +61,20 @@ Theorem client_trace_ok : forall t0 evs,
   trace_ok chk_all (trace (init t0) evs) = true.
 Proof. exact client_trace_ok_holds. Qed.
 Print Assumptions client_trace_ok.
+
+(* The observer: a second monitor that ignores the client's private fields and
+   derives "the scheduler may think this worker is executing until T" from the
+   Synchronize traffic alone (Spec.obm).  On every model trace
+   (a) Run returns mayTerminate during shutdown only once that bound is gone or
+       has passed,
+   (b) an idle worker sends PreferBeingIdle = false only while the bound is
+       gone and right after a successful readiness check,
+   (c) after every step the client's schedulerMayThinkExecutingUntil is not
+       nil and not earlier than the observed bound whenever there is one
+       (in the model the two coincide). *)
+Theorem observer_ok_all : forall t0 evs, observer_ok t0 (trace (init t0) evs) = true.
+Proof. exact observer_ok_holds. Qed.
+Print Assumptions observer_ok_all.
 
 (* The same on traces (evaluated on the implementation by Corr.v): whenever
    the snapshot after a step has until = nil, the monitor knows of no running
@@ -115,11 +129,11 @@ Example demo_outputs :
   map i_outs (trace (init 0) demo) =
   [ [OReady; OSync RIdle false true; OStart 0 1 false; ORet false ENone];
     [OX (XUpdate 1) XSent];
-    [OTimer 5; OSync (RExec 1 (StUpd 1)) false true; ORet false ENone];
+    [OTimer 5 false; OSync (RExec 1 (StUpd 1)) false true; ORet false ENone];
     [OExit 0; OX (XFinish false 7) XSent]; [OX XClose XClosed];
-    [OTimer 0; OSync (RExec 1 (StDone false 7)) true true; ORet true ENone];
+    [OTimer 0 false; OSync (RExec 1 (StDone false 7)) true true; ORet true ENone];
     [OReady; OSync (RExec 1 (StDone false 7)) true true; OStart 1 2 false; ORet false ENone];
-    [OTimer 0; OSync (RExec 2 StStarted) false true; OCancel 1; OExit 1; ORet true ENone];
+    [OTimer 0 true; OSync (RExec 2 StStarted) false true; OCancel 1; OExit 1; ORet true ENone];
     [ORet true ENone];
     [ORet true ENone] ]%N.
 Proof. vm_compute. reflexivity. Qed.
@@ -136,7 +150,7 @@ Definition bad_item (e : event) (o : list out) : item := mkItem e o (mkObs (Some
 Example two_executors_rejected :
   chk_trace chk_all mon_init
     [ bad_item (rn false 0 (Reply (Some 10) (DExec 1))) [OReady; OSync RIdle false true; OStart 0 1 false; ORet false ENone];
-      bad_item (rn false 5 (Reply (Some 10) (DExec 2))) [OTimer 5; OSync (RExec 1 StStarted) false true; OStart 1 2 false; ORet false ENone] ]
+      bad_item (rn false 5 (Reply (Some 10) (DExec 2))) [OTimer 5 true; OSync (RExec 1 StStarted) false true; OStart 1 2 false; ORet false ENone] ]
   = "start-before-previous-exit"%string.
 Proof. vm_compute. reflexivity. Qed.
 
@@ -144,7 +158,7 @@ Example foreign_response_rejected :
   chk_trace chk_all mon_init
     [ bad_item (rn false 0 (Reply (Some 10) (DExec 1))) [OReady; OSync RIdle false true; OStart 0 1 false; ORet false ENone];
       bad_item (EExec (XFinish true 3)) [OExit 0; OX (XFinish true 3) XSent];
-      bad_item (rn false 5 (Reply (Some 10) DNone)) [OTimer 5; OSync (RExec 1 (StDone true 4)) false true; ORet true ENone] ]
+      bad_item (rn false 5 (Reply (Some 10) DNone)) [OTimer 5 true; OSync (RExec 1 (StDone true 4)) false true; ORet true ENone] ]
   = "reports-foreign-response"%string.
 Proof. vm_compute. reflexivity. Qed.
 
@@ -166,7 +180,7 @@ Example until_nil_while_executing_rejected :
 Proof. vm_compute. reflexivity. Qed.
 
 Example soliciting_without_readiness_rejected :
-  chk_trace chk_all mon_init [ bad_item (rn false 50 RpcErr) [OTimer 0; OSync RIdle false true; ORet false ESync] ]
+  chk_trace chk_all mon_init [ bad_item (rn false 50 RpcErr) [OTimer 0 true; OSync RIdle false true; ORet false ESync] ]
   = "solicits-work-without-readiness-check"%string.
 Proof. vm_compute. reflexivity. Qed.
 
@@ -174,6 +188,32 @@ Example no_idle_after_failure_rejected :
   chk_trace chk_all mon_init
     [ bad_item (rn false 0 (Reply (Some 10) (DExec 1))) [OReady; OSync RIdle false true; OStart 0 1 false; ORet false ENone];
       bad_item (EExec (XFinish false 3)) [OExit 0; OX (XFinish false 3) XSent];
-      bad_item (rn false 5 (Reply (Some 10) DNone)) [OTimer 5; OSync (RExec 1 (StDone false 3)) false true; ORet true ENone] ]
+      bad_item (rn false 5 (Reply (Some 10) DNone)) [OTimer 5 true; OSync (RExec 1 (StDone false 3)) false true; ORet true ENone] ]
   = "failure-reported-without-prefer-idle"%string.
+Proof. vm_compute. reflexivity. Qed.
+
+(* The seeded slip "touch only when the RPC failed": the RPC succeeds but the
+   reply is rejected locally, the field stays nil, and the observer objects. *)
+Example rejected_reply_not_extending_rejected :
+  ochk_trace (obm_init 0)
+    [ mkItem (rn false 5 (Reply (Some 10) DUnknown)) [OReady; OSync RIdle false true; ORet false EUnknown]
+             (mkObs None 10 false false) ]
+  = "until-not-extended-after-rejected-reply"%string.
+Proof. vm_compute. reflexivity. Qed.
+
+Example early_termination_observed :
+  ochk_trace (obm_init 0)
+    [ mkItem (rn false 5 (Reply None DNone)) [OReady; OSync RIdle false true; ORet false ETs]
+             (mkObs (Some 60000) 0 false false);
+      mkItem (rn true 6 RpcErr) [ORet true ENone] (mkObs (Some 60000) 0 false false) ]
+  = "terminates-before-observed-bound-has-passed"%string.
+Proof. vm_compute. reflexivity. Qed.
+
+Example soliciting_while_maybe_executing_rejected :
+  ochk_trace (obm_init 0)
+    [ mkItem (rn false 5 RpcErr) [OReady; OSync RIdle false true; ORet false ESync]
+             (mkObs (Some 60000) 0 false false);
+      mkItem (rn false 6 RpcErr) [OReady; OSync RIdle false true; ORet false ESync]
+             (mkObs (Some 60000) 0 false false) ]
+  = "solicits-work-while-scheduler-may-think-executing"%string.
 Proof. vm_compute. reflexivity. Qed.
